@@ -545,8 +545,17 @@ def _returned_as_is(body, local):
             for s in body.stmts(blk):
                 if s["k"] == "assign" and s["rv"]["k"] == "use" and not s["p"][1]:
                     p = op_place(s["rv"]["op"])
-                    if p is not None and not p[1] and p[0] == l:
+                    if p is None or p[0] != l:
+                        continue
+                    # a plain move, or the output taken out of a completed poll (`.await` as the tail expression)
+                    if not p[1] or (len(p[1]) == 2 and p[1][0][0] == "downcast" and p[1][0][1] == "Ready" and p[1][1][0] == "field"):
                         work.append(s["p"][0])
+            # an adapter that keeps an Err an Err (`helper(..).map(Wrap)`)
+            t = body.term(blk)
+            if t and t["k"] == "call" and t["args"]:
+                p0 = op_place(t["args"][0])
+                if p0 is not None and not p0[1] and p0[0] == l and Callee(t["f"]).name in ("Result::map", "Result::map_err", "Result::inspect", "Result::inspect_err"):
+                    work.append(t["dest"][0])
     return False
 
 
